@@ -1049,9 +1049,19 @@ class MeshRegion:
                 * self.tanBeta
                 / self.hy
             )
-            self.g12 = self.Rxy * numpy.abs(self.Bpxy) * self.tanBeta / self.hy
+            # Note tanBeta is calculated from the index direction of the grid and the
+            # direction of Bp, while x = psi and y increase in directions that depend on
+            # bpsign, hence the factors of bpsign in the terms linear in tanBeta.
+            self.g12 = (
+                -self.bpsign * self.Rxy * numpy.abs(self.Bpxy) * self.tanBeta / self.hy
+            )
             self.g13 = (
-                -self.Rxy * self.Bpxy * self.dphidy * self.tanBeta / self.hy
+                self.bpsign
+                * self.Rxy
+                * self.Bpxy
+                * self.dphidy
+                * self.tanBeta
+                / self.hy
                 - self.I * (self.Rxy * self.Bpxy) ** 2
             )
             self.g23 = (
@@ -1067,9 +1077,8 @@ class MeshRegion:
             )
             self.g_22 = self.hy**2 + (self.dphidy * self.Rxy) ** 2
             self.g_33 = self.Rxy**2
-            self.g_12 = (
-                self.bpsign * self.I * self.dphidy * self.Rxy**2
-                - self.hy * self.tanBeta / (self.Rxy * numpy.abs(self.Bpxy))
+            self.g_12 = self.bpsign * self.I * self.dphidy * self.Rxy**2 + (
+                self.bpsign * self.hy * self.tanBeta / (self.Rxy * numpy.abs(self.Bpxy))
             )
             self.g_13 = self.I * self.Rxy**2
             self.g_23 = self.bpsign * self.dphidy * self.Rxy**2
